@@ -31,6 +31,7 @@ What the model cannot exhibit (named per DESIGN section 5):
 -/
 import AioMySensors.Model.FileOps
 import AioMySensors.Lemmas.JsonText
+import AioMySensors.Lemmas.PersistReach
 
 namespace AioMySensors.C15
 open AioMySensors AioMySensors.FileOps
@@ -385,6 +386,53 @@ theorem atomic_if_renamed_real_any (old new : Registry) (ho : RegOK old) (hio : 
     loadFs realLoader c = .ok (canonOf old) ∨ loadFs realLoader c = .ok (canonOf new) := by
   rw [← realDump_canonOf old ho, ← realDump_canonOf new hn] at h
   exact atomic_if_renamed realLoader _ _ (realOK_canonOf old ho hio) (realOK_canonOf new hn hin) c h
+
+/-! #### Registries the gateway reaches
+
+No hypothesis on the registries is left when they are the registries of a running gateway: every
+registry a history of received lines and `send` calls produces from the empty gateway is within
+C13's `RegOK` (`runOps_regOK`) and has printable integers (`runOps_regIntsOK`, `Lemmas/PersistReach.lean`). -/
+
+/-- The canonical representative of a reachable registry is in the real loader's domain. -/
+theorem realOK_reachable (ops : List Op) : RealOK (canonOf (runOps {} ops).nodes) :=
+  realOK_canonOf _ (runOps_regOK {} ops ⟨by simp [PDict.keys], by simp⟩) (runOps_regIntsOK {} ops rfl)
+
+/-- **Crash classes for the registries of a running gateway**: `old` is the registry after any history
+`ops₁` from the empty gateway (the file on disk is its save), `new` the registry after any history `ops₂`
+(in particular a continuation of `ops₁`), both with any environments, `send` calls and write faults.  A
+crash during today's save of `new` over the file of `old` leaves a file that loads to `old`, to `new`
+(each as the dict-equal canonical representative), to the empty registry, or raises
+`PersistenceReadError` — nothing else, and no side condition on the registries. -/
+theorem crash_load_classes_reachable (ops₁ ops₂ : List Op) (c : Fs)
+    (h : c ∈ crashStates (Fs.init (realDump (runOps {} ops₁).nodes)) (saveOps (realDump (runOps {} ops₂).nodes))) :
+    loadFs realLoader c = .ok (canonOf (runOps {} ops₁).nodes) ∨
+    loadFs realLoader c = .ok (canonOf (runOps {} ops₂).nodes) ∨
+      (c.live = some [] ∧ loadFs realLoader c = .ok []) ∨
+      (∃ p, c.live = some p ∧ p <+: realDump (runOps {} ops₂).nodes ∧ p ≠ [] ∧ p ≠ realDump (runOps {} ops₂).nodes ∧
+        loadFs realLoader c = .readError) :=
+  crash_load_classes_real_any _ _ (runOps_regOK {} ops₁ ⟨by simp [PDict.keys], by simp⟩) (runOps_regIntsOK {} ops₁ rfl)
+    (runOps_regOK {} ops₂ ⟨by simp [PDict.keys], by simp⟩) (runOps_regIntsOK {} ops₂ rfl) c h
+
+/-- The same from any starting states within the domain (e.g. registries loaded from a file). -/
+theorem crash_load_classes_reachable_from (st₁ st₂ : St) (ops₁ ops₂ : List Op)
+    (h₁ : RegOK st₁.nodes) (hi₁ : regIntsOK st₁.nodes = true) (h₂ : RegOK st₂.nodes) (hi₂ : regIntsOK st₂.nodes = true) (c : Fs)
+    (h : c ∈ crashStates (Fs.init (realDump (runOps st₁ ops₁).nodes)) (saveOps (realDump (runOps st₂ ops₂).nodes))) :
+    loadFs realLoader c = .ok (canonOf (runOps st₁ ops₁).nodes) ∨
+    loadFs realLoader c = .ok (canonOf (runOps st₂ ops₂).nodes) ∨
+      (c.live = some [] ∧ loadFs realLoader c = .ok []) ∨
+      (∃ p, c.live = some p ∧ p <+: realDump (runOps st₂ ops₂).nodes ∧ p ≠ [] ∧ p ≠ realDump (runOps st₂ ops₂).nodes ∧
+        loadFs realLoader c = .readError) :=
+  crash_load_classes_real_any _ _ (runOps_regOK st₁ ops₁ h₁) (runOps_regIntsOK st₁ ops₁ hi₁)
+    (runOps_regOK st₂ ops₂ h₂) (runOps_regIntsOK st₂ ops₂ hi₂) c h
+
+/-- **The atomic sequence for the registries of a running gateway**: every crash state loads to the old
+or to the new registry. -/
+theorem atomic_if_renamed_reachable (ops₁ ops₂ : List Op) (c : Fs)
+    (h : c ∈ crashStates (Fs.init (realDump (runOps {} ops₁).nodes)) (saveOpsAtomic (realDump (runOps {} ops₂).nodes))) :
+    loadFs realLoader c = .ok (canonOf (runOps {} ops₁).nodes) ∨
+    loadFs realLoader c = .ok (canonOf (runOps {} ops₂).nodes) :=
+  atomic_if_renamed_real_any _ _ (runOps_regOK {} ops₁ ⟨by simp [PDict.keys], by simp⟩) (runOps_regIntsOK {} ops₁ rfl)
+    (runOps_regOK {} ops₂ ⟨by simp [PDict.keys], by simp⟩) (runOps_regIntsOK {} ops₂ rfl) c h
 
 /-- A registry in insertion order different from key order at all three levels, with a `reboot`
 flag set: covered by the `_any` theorems, outside `RealOK`. -/
